@@ -9,4 +9,4 @@ if [ ! -d $S/repo ]; then git -C /repo worktree add -q --detach $S/repo HEAD; el
 rsync -a --exclude work --exclude .git --exclude evidence/replay /verif/ $S/verif/
 sed -i "s|/repo/pie|$S/repo/pie|; s|/repo/graph|$S/repo/graph|" $S/verif/harness/Cargo.toml
 cd $S/verif && VERIF_REPO=$S/repo python3 lib/eval_seeded.py "$@"
-for d in $S/verif/seeded/*/; do id=$(basename $d); cp $d/meta.json /verif/work/scratch_meta_$id.json 2>/dev/null || true; done
+for id in "$@"; do [ -f $S/verif/seeded/$id/meta.json ] && cp $S/verif/seeded/$id/meta.json /verif/work/scratch_meta_$id.json; done; true
